@@ -488,9 +488,10 @@ def run(chk: Check, replay=None):
         run_arena(chk, fjm_run, 32, bit_blocks(rng, 32, False), False, 300, 4, rng, "bit")
         run_arena(chk, fjm_run, 16, bit_blocks(rng, 16, True), False, 300, 4, rng, "bit")
     else:
-        run_arena(chk, fjm_run, 64, hex_blocks(rng, 64, [2, 3, 4, 5], 16, True), True, 30000, 8, rng, "hex")
-        run_arena(chk, fjm_run, 32, hex_blocks(rng, 32, [2, 3, 5], 12, True), True, 20000, 8, rng, "hex")
-        run_arena(chk, fjm_run, 64, bit_blocks(rng, 64, False), False, 6000, 8, rng, "bit")
-        run_arena(chk, fjm_run, 32, bit_blocks(rng, 32, False), False, 6000, 8, rng, "bit")
-        run_arena(chk, fjm_run, 16, bit_blocks(rng, 16, True), False, 6000, 8, rng, "bit")
+        # (sized so that the TLC oracle - byte-limb arithmetic on 40-cell buffers - finishes in about half an hour)
+        run_arena(chk, fjm_run, 64, hex_blocks(rng, 64, [2, 3, 4, 5], 16, True), True, 12000, 8, rng, "hex")
+        run_arena(chk, fjm_run, 32, hex_blocks(rng, 32, [2, 3, 5], 12, True), True, 8000, 8, rng, "hex")
+        run_arena(chk, fjm_run, 64, bit_blocks(rng, 64, False), False, 3000, 8, rng, "bit")
+        run_arena(chk, fjm_run, 32, bit_blocks(rng, 32, False), False, 3000, 8, rng, "bit")
+        run_arena(chk, fjm_run, 16, bit_blocks(rng, 16, True), False, 3000, 8, rng, "bit")
         run_arena(chk, fjm_run, 64, hex_blocks(rng, 64, [2], 4, False), True, 1500, 5, rng, "hex", engine="fast")
